@@ -591,9 +591,12 @@ def sample_nonzero(e, tries=4):
         try:
             ee = e.subs(sub)
             # opaque functions: replace by a fixed positive algebraic expression of their arguments
-            for fa in ee.atoms(sp.Function):
+            names = sorted(set(fa.func.__name__ for fa in ee.atoms(sp.Function)
+                               if isinstance(fa, sp.core.function.AppliedUndef)))
+            for fa in list(ee.atoms(sp.Function)):
                 if isinstance(fa, sp.core.function.AppliedUndef):
-                    ee = ee.subs(fa, 1 + sum(abs(a) for a in fa.args) / 3)
+                    k = names.index(fa.func.__name__)
+                    ee = ee.subs(fa, (k + 1) + sum(abs(a) for a in fa.args) / (3 + 2 * k))
             val = sp.N(ee, 30)
             if val.is_number and val.is_finite is not False and abs(val) > sp.Float("1e-18"):
                 return ({str(k): str(v) for k, v in sub.items()}, str(sp.N(val, 8)))
